@@ -14,6 +14,16 @@ formula execution log - with an independent memoising evaluator (Sim) that imple
     the discarded elements run their formula again (execution log equality),
   * recalculation option on: after an assignment the discarded dependents are held again at once, with the lazy
     values, each formula having run once.
+
+Readings fixed by the oracle (each follows the statement / the documented API, see the report):
+  - the recalculation option applies to assignments (mx.set_recalc doc); clear_at/clear/clear_all stay lazy;
+  - an ItemSpace node that depended on the assigned element is a discarded dependent and must exist again after a
+    recalculating assignment; a cells value *inside* that ItemSpace that no recomputed element asks for may or may
+    not be recomputed (it depends on the element through the ItemSpace's reference, not through a call);
+  - a reference change must keep every assigned value and must not leave any computed value that (transitively)
+    read the reference; what else it discards is not constrained here (C02).
+Models are reused between cases (reset by a checked Model.clear_all()); a failure seen on a reused model is
+re-run on a fresh one, if necessary together with the preceding cases, before it is reported.
 """
 import os, sys, time, itertools, random, multiprocessing
 
@@ -25,7 +35,8 @@ WEIGHT = (3, 5, 7, 11, 13)
 # ------------------------------------------------------------------------------------------------ nets
 class Net:
     """preds[i] = tuple of j < i;  kinds[i] in C (cached cells) U (uncached cells) I (ItemSpace node);
-    layout: one (scalar cells in S) / two (even nodes in S, odd in T) / args (one cells f(i))."""
+    layout: one (scalar cells in S) / two (even nodes in S, odd in T, calls by attribute path) / args (one cells
+    f(i)) / args2 (one cells f(i, j), positional and keyword arguments)."""
 
     def __init__(self, preds, kinds, layout):
         self.preds, self.kinds, self.layout = tuple(map(tuple, preds)), tuple(kinds), layout
@@ -570,10 +581,15 @@ def work(task):
     cases = []
     fails = {}
     expired = False
+    build_errors = []
     for preds, kinds, layout in nets:
         net = Net(preds, kinds, layout)
         rng = random.Random("%s/%s/%s" % (seed, net.key, maxlen))
-        bench = Bench(net)
+        try:
+            bench = Bench(net)
+        except Exception as e:      # the net cannot be built on this tree: nothing to check
+            build_errors.append("%s: %s: %s" % (net.key, type(e).__name__, str(e)[:150]))
+            continue
 
         def gen():
             if sample is None:
@@ -625,7 +641,7 @@ def work(task):
                     ent[1].append((what[:600], make_script(net, case[0], recs) if recs else None, key))
         if expired:
             break
-    return cases, fails, expired
+    return cases, fails, expired, build_errors
 
 
 def run(res, tier, seed):
@@ -633,7 +649,7 @@ def run(res, tier, seed):
                  "thorough: <= 3 exhaustive), on 4 elements (quick: 1 edit exhaustive for scalar cells, 2 sampled; "
                  "thorough: <= 2 exhaustive, 3 sampled) and on 5 elements (thorough: 1 edit exhaustive for scalar cells, "
                  "<= 3 sampled); realisations: scalar cells in one space / in two spaces (calls by attribute path) / "
-                 "elements of one cells with an argument / one or two uncached cells / one ItemSpace node; every edited "
+                 "elements of one cells with one or two arguments / one or two uncached cells / one ItemSpace node; every edited "
                  "element x {assign, clear_at, clear(), clear_all(), delete ItemSpace, reference change} x recalc on/off "
                  "x initial evaluation {all, one target, none}")
     res.rule = ("a case = (DAG realisation, recalc flag, initial evaluation, sequence of edits with optional full "
@@ -657,7 +673,11 @@ def run(res, tier, seed):
     ctx = multiprocessing.get_context("fork")
     exhaustive = True
     with ctx.Pool(nproc) as pool:
-        for cases, fails, expired in pool.imap(work, tasks, chunksize=1):
+        for cases, fails, expired, build_errors in pool.imap(work, tasks, chunksize=1):
+            if build_errors:
+                exhaustive = False
+                if len(res.notes) < 5:
+                    res.notes.append("nets that could not be built: %s" % build_errors[:2])
             for key, nontrivial in cases:
                 res.count(key, nontrivial)
             if cases:
